@@ -19,7 +19,7 @@ MODEL_FILES = ["Model/Hdd.v", "Proofs/Layers.v", "Model/Chain.v", "Model/Vdi.v",
                "Model/Qcow2.v"]
 META = {
     "category": "proof",
-    "text": "Coq theorems: sparse VMDK delta links are chain layers at sector granularity (chains of any depth); a .hdd split over storages reads every byte from the chain of the storage that holds its sector and never from a neighbour (Model/Hdd.v); reading a chain of layers of ANY depth yields for every byte the topmost layer that holds it, else "
+    "text": "Coq theorems: sparse VMDK delta links are chain layers at sector granularity (chains of any depth); a QCOW2 chain over a base SHORTER than its overlays reads zeros beyond the base and keeps overlay data in place (clip_layer_ok, C07_qcow2_short_base_chain); a .hdd split over storages reads every byte from the chain of the storage that holds its sector and never from a neighbour (Model/Hdd.v); reading a chain of layers of ANY depth yields for every byte the topmost layer that holds it, else "
             "the nearest ancestor, else zero (generic overlay theorem by induction on the chain); the VDI, Parallels HDS and "
             "VHDX readers are such layers for every allocation map; the VHDX sector-bitmap run iterator expands to exactly the "
             "bitmap bits for every bitmap, start bit and length (the 12 pinned vectors hold of the model); a required VHDX "
